@@ -2,10 +2,18 @@ package main
 
 import (
 	"context"
+	"crypto/ecdsa"
+	"crypto/elliptic"
+	"crypto/rand"
+	"crypto/x509"
+	"crypto/x509/pkix"
+	"encoding/pem"
+	"math/big"
 	"os"
 	"path/filepath"
 	"sort"
 	"strings"
+	"time"
 
 	api "k8s.io/api/core/v1"
 	"k8s.io/apimachinery/pkg/api/meta"
@@ -19,6 +27,7 @@ import (
 	"sigs.k8s.io/controller-runtime/pkg/client/interceptor"
 	gatewayv1 "sigs.k8s.io/gateway-api/apis/v1"
 	gatewayv1alpha2 "sigs.k8s.io/gateway-api/apis/v1alpha2"
+	gatewayv1beta1 "sigs.k8s.io/gateway-api/apis/v1beta1"
 
 	"github.com/jcmoraisjr/haproxy-ingress/pkg/controller/config"
 	"github.com/jcmoraisjr/haproxy-ingress/pkg/controller/services"
@@ -65,7 +74,10 @@ func newEnv(dir, controller string) *env {
 	if err := gatewayv1alpha2.Install(scheme); err != nil {
 		panic(err)
 	}
-	cfg := &config.Config{ControllerName: controller, HasGatewayV1: true, HasTCPRouteA2: true,
+	if err := gatewayv1beta1.Install(scheme); err != nil {
+		panic(err)
+	}
+	cfg := &config.Config{ControllerName: controller, HasGatewayV1: true, HasGatewayB1: true, HasGatewayA2: true, HasTCPRouteA2: true,
 		DefaultDirCerts: filepath.Join(dir, "ssl"), DefaultDirCACerts: filepath.Join(dir, "cacerts"), DefaultDirCrl: filepath.Join(dir, "crl"),
 		DefaultDirDHParam: filepath.Join(dir, "dhparam"), DefaultDirMaps: filepath.Join(dir, "maps"), DefaultDirVarRun: filepath.Join(dir, "run")}
 	e := &env{scheme: scheme, cfg: cfg, swap: &swapClient{}, tr: tracker.NewTracker(), dyn: &convtypes.DynamicConfig{}}
@@ -110,12 +122,75 @@ func stamp(scheme *runtime.Scheme) interceptor.Funcs {
 
 func sp(s *string) *string { return s }
 
+// versionOf: the API version an object is declared in.
+func versionOf(in *clusterIn, v string) string {
+	if v != "" {
+		return v
+	}
+	if in.Version != "" {
+		return in.Version
+	}
+	return "v1"
+}
+
+// enabledVersions: the versions the controller reads, in the order converters.Sync uses.
+func enabledVersions(in *clusterIn) []string {
+	en := in.Enabled
+	if len(en) == 0 {
+		en = []string{versionOf(in, "")}
+	}
+	var out []string
+	for _, v := range []string{"v1", "v1beta1", "v1alpha2"} {
+		for _, e := range en {
+			if e == v {
+				out = append(out, v)
+				break
+			}
+		}
+	}
+	return out
+}
+
+var tlsCrt, tlsKey []byte
+
+func init() {
+	k, err := ecdsa.GenerateKey(elliptic.P256(), rand.Reader)
+	if err != nil {
+		panic(err)
+	}
+	tmpl := &x509.Certificate{SerialNumber: big.NewInt(10), Subject: pkix.Name{CommonName: "c10"},
+		NotBefore: time.Now().Add(-time.Hour), NotAfter: time.Now().Add(24 * time.Hour), DNSNames: []string{"*.example", "gw.example"}}
+	der, err := x509.CreateCertificate(rand.Reader, tmpl, tmpl, &k.PublicKey, k)
+	if err != nil {
+		panic(err)
+	}
+	kb, err := x509.MarshalECPrivateKey(k)
+	if err != nil {
+		panic(err)
+	}
+	tlsCrt = pem.EncodeToMemory(&pem.Block{Type: "CERTIFICATE", Bytes: der})
+	tlsKey = pem.EncodeToMemory(&pem.Block{Type: "EC PRIVATE KEY", Bytes: kb})
+}
+
 // objects builds the Kubernetes objects of a cluster input.
 func objects(in *clusterIn) []client.Object {
 	var objs []client.Object
 	for _, c := range in.Classes {
-		objs = append(objs, &gatewayv1.GatewayClass{ObjectMeta: metav1.ObjectMeta{Name: c.Name},
-			Spec: gatewayv1.GatewayClassSpec{ControllerName: gatewayv1.GatewayController(c.Controller)}})
+		gc := &gatewayv1.GatewayClass{ObjectMeta: metav1.ObjectMeta{Name: c.Name},
+			Spec: gatewayv1.GatewayClassSpec{ControllerName: gatewayv1.GatewayController(c.Controller)}}
+		switch versionOf(in, c.V) {
+		case "v1beta1":
+			objs = append(objs, (*gatewayv1beta1.GatewayClass)(gc))
+		case "v1alpha2":
+			objs = append(objs, (*gatewayv1alpha2.GatewayClass)(gc))
+		default:
+			objs = append(objs, gc)
+		}
+	}
+	// one real certificate in every namespace, for the listeners that terminate TLS
+	for _, ns := range []string{"a", "b", "c"} {
+		objs = append(objs, &api.Secret{ObjectMeta: metav1.ObjectMeta{Namespace: ns, Name: "crt0"}, Type: api.SecretTypeTLS,
+			Data: map[string][]byte{api.TLSCertKey: tlsCrt, api.TLSPrivateKeyKey: tlsKey}})
 	}
 	for _, n := range in.Namespaces {
 		ls := map[string]string{}
@@ -131,6 +206,17 @@ func objects(in *clusterIn) []client.Object {
 			if l.Hostname != nil {
 				h := gatewayv1.Hostname(*l.Hostname)
 				li.Hostname = &h
+			}
+			if l.TLS != nil {
+				t := &gatewayv1.GatewayTLSConfig{}
+				if l.TLS.Mode != nil {
+					m := gatewayv1.TLSModeType(*l.TLS.Mode)
+					t.Mode = &m
+				}
+				for _, c := range l.TLS.Certs {
+					t.CertificateRefs = append(t.CertificateRefs, gatewayv1.SecretObjectReference{Name: gatewayv1.ObjectName(c)})
+				}
+				li.TLS = t
 			}
 			if l.Allowed != nil {
 				ar := &gatewayv1.AllowedRoutes{}
@@ -168,7 +254,14 @@ func objects(in *clusterIn) []client.Object {
 			}
 			gw.Spec.Listeners = append(gw.Spec.Listeners, li)
 		}
-		objs = append(objs, gw)
+		switch versionOf(in, g.V) {
+		case "v1beta1":
+			objs = append(objs, (*gatewayv1beta1.Gateway)(gw))
+		case "v1alpha2":
+			objs = append(objs, (*gatewayv1alpha2.Gateway)(gw))
+		default:
+			objs = append(objs, gw)
+		}
 	}
 	parents := func(ps []parentIn) []gatewayv1.ParentReference {
 		var out []gatewayv1.ParentReference
@@ -253,7 +346,14 @@ func objects(in *clusterIn) []client.Object {
 			}
 			hr.Spec.Rules = append(hr.Spec.Rules, rule)
 		}
-		objs = append(objs, hr)
+		switch versionOf(in, r.V) {
+		case "v1beta1":
+			objs = append(objs, (*gatewayv1beta1.HTTPRoute)(hr))
+		case "v1alpha2":
+			objs = append(objs, (*gatewayv1alpha2.HTTPRoute)(hr))
+		default:
+			objs = append(objs, hr)
+		}
 	}
 	for _, s := range in.Services {
 		svc := &api.Service{ObjectMeta: metav1.ObjectMeta{Namespace: s.NS, Name: s.Name}}
@@ -306,14 +406,22 @@ type tcpObs struct {
 	Port    int    `json:"port"`
 	Backend string `json:"backend"`
 }
+type hpbObs struct {
+	Host    string `json:"host"`
+	Backend string `json:"backend"`
+}
 type observed struct {
-	Kinds    map[string]string `json:"kinds"` // "http:ns/name" | "tcp:ns/name" -> Kind reported by the cache
+	Kinds    map[string]string `json:"kinds"` // "http:<version>:ns/name" | "tcp:ns/name" -> Kind reported by the cache
 	Paths    []pathObs         `json:"paths"`
 	Backends []backObs         `json:"backends"`
 	TCP      []tcpObs          `json:"tcp"`
+	ModeTCP  []string          `json:"mode_tcp"`        // backends with ModeTCP
+	Pass     []string          `json:"ssl_passthrough"` // hosts with ssl-passthrough
+	HPB      []hpbObs          `json:"http_passthrough_backend"`
 }
 
-// run pushes the objects through the real cache facade and the real gateway converter.
+// run pushes the objects through the real cache facade and the real gateway converter, one sync
+// per enabled API version as converters.Sync does.
 func (e *env) run(in *clusterIn) *observed {
 	b := fake.NewClientBuilder().WithScheme(e.scheme).WithObjects(objects(in)...)
 	if in.Stamp {
@@ -321,37 +429,87 @@ func (e *env) run(in *clusterIn) *observed {
 	}
 	e.swap.Client = b.Build()
 	e.tr.ClearLinks()
-	obs := &observed{Kinds: map[string]string{}, Paths: []pathObs{}, Backends: []backObs{}, TCP: []tcpObs{}}
+	obs := &observed{Kinds: map[string]string{}, Paths: []pathObs{}, Backends: []backObs{}, TCP: []tcpObs{}, ModeTCP: []string{}, Pass: []string{}, HPB: []hpbObs{}}
+	kind := func(o client.Object) string { return o.GetObjectKind().GroupVersionKind().Kind }
 	if rl, err := e.cache.GetHTTPRouteList(); err == nil {
 		for _, r := range rl {
-			obs.Kinds["http:"+r.Namespace+"/"+r.Name] = r.GetObjectKind().GroupVersionKind().Kind
+			obs.Kinds["http:v1:"+r.Namespace+"/"+r.Name] = kind(r)
+		}
+	} else {
+		panic(err)
+	}
+	if rl, err := e.cache.GetHTTPRouteB1List(); err == nil {
+		for _, r := range rl {
+			obs.Kinds["http:v1beta1:"+r.Namespace+"/"+r.Name] = kind(r)
+		}
+	} else {
+		panic(err)
+	}
+	if rl, err := e.cache.GetHTTPRouteA2List(); err == nil {
+		for _, r := range rl {
+			obs.Kinds["http:v1alpha2:"+r.Namespace+"/"+r.Name] = kind(r)
 		}
 	} else {
 		panic(err)
 	}
 	if rl, err := e.cache.GetTCPRouteList(); err == nil {
 		for _, r := range rl {
-			obs.Kinds["tcp:"+r.Namespace+"/"+r.Name] = r.GetObjectKind().GroupVersionKind().Kind
+			obs.Kinds["tcp:"+r.Namespace+"/"+r.Name] = kind(r)
 		}
 	} else {
 		panic(err)
 	}
 	hconfig := haproxy.CreateInstance(nopLogger{}, haproxy.InstanceOptions{}).Config()
-	conv := gateway.NewGatewayConverter(&convtypes.ConverterOptions{Cache: e.cache, Logger: nopLogger{}, Tracker: e.tr,
-		HasGatewayV1: true, HasTCPRouteA2: true, DynamicConfig: e.dyn}, hconfig, &convtypes.ChangedObjects{}, nil)
-	conv.Sync(true, &gatewayv1.Gateway{})
+	opts := &convtypes.ConverterOptions{Cache: e.cache, Logger: nopLogger{}, Tracker: e.tr, HasTCPRouteA2: true, DynamicConfig: e.dyn}
+	for _, v := range enabledVersions(in) {
+		switch v {
+		case "v1":
+			opts.HasGatewayV1 = true
+		case "v1beta1":
+			opts.HasGatewayB1 = true
+		case "v1alpha2":
+			opts.HasGatewayA2 = true
+		}
+	}
+	conv := gateway.NewGatewayConverter(opts, hconfig, &convtypes.ChangedObjects{}, nil)
+	// converters.Sync
+	if opts.HasGatewayV1 {
+		conv.Sync(true, &gatewayv1.Gateway{})
+	}
+	if opts.HasGatewayB1 {
+		conv.Sync(true, &gatewayv1beta1.Gateway{})
+	}
+	if opts.HasGatewayA2 {
+		conv.Sync(true, &gatewayv1alpha2.Gateway{})
+	}
 	for _, h := range hconfig.Hosts().Items() {
 		for _, p := range h.Paths {
 			obs.Paths = append(obs.Paths, pathObs{string(p.Link.Hash()), p.Backend.ID})
 		}
+		if h.SSLPassthrough() {
+			obs.Pass = append(obs.Pass, h.Hostname)
+		}
+		if h.HTTPPassthroughBackend != "" {
+			obs.HPB = append(obs.HPB, hpbObs{h.Hostname, h.HTTPPassthroughBackend})
+		}
 	}
-	sort.Slice(obs.Paths, func(i, j int) bool { return obs.Paths[i].Link < obs.Paths[j].Link })
+	sort.Slice(obs.Paths, func(i, j int) bool {
+		if obs.Paths[i].Link != obs.Paths[j].Link {
+			return obs.Paths[i].Link < obs.Paths[j].Link
+		}
+		return obs.Paths[i].Backend < obs.Paths[j].Backend
+	})
+	sort.Strings(obs.Pass)
+	sort.Slice(obs.HPB, func(i, j int) bool { return obs.HPB[i].Host < obs.HPB[j].Host })
 	for _, b := range hconfig.Backends().BuildSortedItems() {
 		bo := backObs{ID: b.ID, Endpoints: []epObs{}}
 		for _, ep := range b.Endpoints {
 			bo.Endpoints = append(bo.Endpoints, epObs{ep.IP, ep.Port, ep.Weight})
 		}
 		obs.Backends = append(obs.Backends, bo)
+		if b.ModeTCP {
+			obs.ModeTCP = append(obs.ModeTCP, b.ID)
+		}
 	}
 	for port, tp := range hconfig.TCPServices().Items() {
 		if dh := tp.DefaultHost(); dh != nil && !dh.Backend.IsEmpty() {
